@@ -39,7 +39,7 @@ StrInfix(p, s) == \E i \in 1..(Len(s) + 1) : OccursAt(p, s, i)
 (*   [t |-> "set", cs |-> <<cp..>>, neg |-> BOOLEAN]   bracket class [ab] / [^ab]               *)
 (* A one-character atom (c, dot, cls, set) may carry rep |-> "+" | "?" | "*".                   *)
 IsDigitC(c) == c \in 48..57
-IsSpaceC(c) == c \in {9, 10, 11, 12, 13, 32}
+IsSpaceC(c) == c \in {9, 10, 11, 12, 13, 32, 133, 160}     \* ... NEXT LINE, NO-BREAK SPACE
 IsWordC(c) == c \in 48..57 \/ c \in 65..90 \/ c \in 97..122 \/ c = 95
               \/ c \in {201, 223, 233, 383, 8490}      \* E-acute, sharp s, e-acute, LONG S, KELVIN SIGN: letters
 ClsOk(n, c) == CASE n = "d" -> IsDigitC(c) [] n = "D" -> ~IsDigitC(c)
